@@ -33,7 +33,18 @@ func (r *RuleEntity) AcceptInteger(val int64) error {
 }
 
 
-func (r *RuleEntity) Execute(dc *context.DataContext) (interface{}, error, bool) {
+func (r *RuleEntity) Execute(dc *context.DataContext) (res interface{}, err error, returned bool) {
+	// constructs other than assignments and calls (conditions, loop headers, return
+	// expressions, element access) have no recover of their own: contain their panics here,
+	// so that a faulty rule fails with an error instead of taking down the caller or,
+	// in the concurrent models, the whole process.
+	defer func() {
+		if e := recover(); e != nil {
+			res, returned = nil, false
+			err = errors.New(fmt.Sprintf("rule \"%s\" execute panic: %+v", r.RuleName, e))
+		}
+	}()
+
 	v, e, b := r.RuleContent.Execute(dc, make(map[string]reflect.Value))
 	if v == reflect.ValueOf(nil) {
 		return nil, e, b
